@@ -106,6 +106,13 @@ DIRECTED = [
     ('A\\footnote{first} \\LTinput{defs.tex} B\\footnote{second} C', {}),
     ('\\usepackage{glossaries}\\LTinput{main.glsdefs}\n\\Gls{ex} and \\gls{ex}, '
      '\\Glspl{pp} and \\glspl{pp}', {}),
+    # macros inside a glossary entry keep their names under every variant
+    ('\\usepackage{glossaries}\\LTinput{main.glsdefs}\nA \\GLS{tx} B \\Gls{tx} C \\GLSpl{tx} D '
+     '\\GLSdesc{tx} E', {}),
+    # a label takes the punctuation mark of the text before it, nothing else
+    ('\\begin{itemize}\n\\item Run \\verb|make install.|\n\\item[Note] more text\n\\end{itemize}\n', {}),
+    ('\\newtheorem{thm}{Theorem}\\begin{thm}[Title here] Text. \\end{thm}\n'
+     '\\begin{itemize}\\item[Lab] x\\end{itemize}', {}),
 ]
 
 
@@ -134,6 +141,10 @@ def oracle_all(c, d, kind, im):
             return 'glossary text: %r' % t
         if '\\Glspl{pp}' in c.latex and 'Ppms and ppms' not in t:
             return 'glossary text: %r' % t
+        if '\\GLS{tx}' in c.latex and t.count('TeX') != 4:
+            return 'the macro inside the glossary entry is lost under a variant: %r' % t
+        if 'make install.' in c.latex and (t.count('make install.') != 1 or t.count('make') != 1):
+            return 'verbatim text repeated or lost next to an item label: %r' % t
     return oracle(c, d, kind, im)
 
 
